@@ -317,3 +317,19 @@ Qed.
 
 Lemma rt_abs_new : rt_abs rt_new = ∅.
 Proof. unfold rt_abs, rt_new. cbn [main lo hb_new hel]. apply (left_id_L ∅ (∪)). Qed.
+
+Lemma lookup_list_replace_ne e' l k : k <> ek e' -> lookup_list k (replace_list e' l) = lookup_list k l.
+Proof.
+  intros Hne. unfold lookup_list, replace_list. induction l as [|x l IH]; [reflexivity|].
+  cbn [List.map List.find]. destruct (N.eqb_spec (ek x) (ek e')) as [Heq|Hneq].
+  - destruct (N.eqb_spec (ek e') k); [congruence|]. destruct (N.eqb_spec (ek x) k); [congruence|]. exact IH.
+  - destruct (ek x =? k); [reflexivity|exact IH].
+Qed.
+
+Lemma lookup_list_remove_ne k' l k : k <> k' -> lookup_list k (remove_list k' l) = lookup_list k l.
+Proof.
+  intros Hne. unfold lookup_list, remove_list. induction l as [|x l IH]; [reflexivity|].
+  cbn [List.filter List.find]. destruct (N.eqb_spec (ek x) k') as [Heq|Hneq]; cbn [negb].
+  - destruct (N.eqb_spec (ek x) k); [congruence|]. exact IH.
+  - cbn [List.find]. destruct (ek x =? k); [reflexivity|exact IH].
+Qed.
